@@ -2,7 +2,7 @@ import re
 """C07 signing returns success only with a verified signature for the requested hash."""
 from ksirules.flow import g_any, g_cmp, g_nonnull, g_ok, g_true, provenance, stores_through_param
 from ksirules.interp import TOP, Interp, Ptr, inline_model
-from ksirules.model import AnalysisBroken, is_int, is_var, lvalue_key, strip
+from ksirules.model import AnalysisBroken, is_int, is_var, lvalue_key, show, strip
 from .chain_common import arg_prov, require_chain, require_ok_return
 
 PFX_RULE = "KSI_VerificationRule_"
@@ -59,6 +59,7 @@ def status_table(prog, chk, rule, name):
 
 
 def run(prog, chk):
+    prepare_request_tables(prog, chk)
     chk.explanation = (
         "(R1) KSI_Signature_signAggregatedWithPolicy stores *signature only after: request created from the caller's hash and level, "
         "perform, authenticated response (C06), request-id match against the request that was sent, status conversion inside "
@@ -295,3 +296,95 @@ def run(prog, chk):
         chk.ob("C07.noverify", w, w in NOVERIFY_WRITERS,
                "switches off the builder's internal verification: " + (NOVERIFY_WRITERS.get(w) or "NOT in the reviewed list of writers"),
                loc=loc, fn=w)
+
+
+def prepare_request_tables(prog, chk):
+    """The six request preparations of the blocking transports (TCP / HTTP / file x aggregation / extension) are siblings: each gives a
+    request without an id the next value of the client's counter (counter advanced once, the id object made of the new value), leaves a
+    caller-chosen id alone, encloses the request with the credentials of ITS OWN endpoint (aggregator for signing, extender for
+    extending), serializes with its own PDU serializer, sends to its own endpoint's address, remembers the request with the handle,
+    and refuses - without touching the counter - when that endpoint is not configured.  Each is evaluated for id absent / present x
+    endpoint configured / missing; the six tables must all satisfy the same expectations."""
+    import itertools
+    from ksirules.interp import TOP, Interp, Ptr, succeed_model
+    chk.rule("C07.prepare", "blocking transports: request id from the client's counter, own endpoint's credentials / address / serializer (sibling decision tables)", floor=18)
+    n = 0
+    for unit, addr in (("net_tcp.c", ["host", "port"]), ("net_http.c", ["url"]), ("net_file.c", ["path"])):
+        for kind, ep_field, other in (("Aggregation", "aggregator", "extender"), ("Extend", "extender", "aggregator")):
+            fns = [f for f in prog.functions.get("prepare%sRequest" % kind, []) if f.unit == unit]
+            if len(fns) != 1:
+                raise AnalysisBroken("prepare%sRequest in %s: %d definitions" % (kind, unit, len(fns)))
+            fn = fns[0]
+            cp, rp, hp = [p["n"] for p in fn.params]
+            T = "KSI_%sReq" % ("Aggregation" if kind == "Aggregation" else "Extend")
+            for has_id, configured in itertools.product((0, 1), (1, 0)):
+                seen = {}
+
+                def getid(I, p, node, args):
+                    I.write(p, lvalue_key(strip(node["a"][1])["e"], I.fn), Ptr("CALLERID") if has_id else 0)
+                    return 0
+
+                def intnew(I, p, node, args):
+                    seen["idvalue"] = args[1]
+                    I.write(p, lvalue_key(strip(node["a"][2])["e"], I.fn), Ptr("NEWID"))
+                    return 0
+
+                def setid(I, p, node, args):
+                    seen["setid"] = args[1]
+                    return 0
+
+                def enclose(I, p, node, args):
+                    seen["enclose"] = tuple(args[:3])
+                    I.write(p, lvalue_key(strip(node["a"][3])["e"], I.fn), Ptr("PDU"))
+                    return 0
+
+                def prep(I, p, node, args):
+                    seen["prepare"] = list(args)
+                    out = strip(node["a"][3])
+                    key = lvalue_key(out, I.fn)
+                    if key:
+                        I.write(p, "*" + key, Ptr("HANDLE"))
+                    I.write(p, "HANDLE->reqCtx", 0)
+                    return 0
+                ov = {T + "_getRequestId": getid, "KSI_Integer_new": intnew, T + "_setRequestId": setid, T + "_enclose": enclose, "prepareRequest": prep,
+                      T + "_ref": lambda I, p, n_, a: a[0], T + "_free": lambda I, p, n_, a: TOP, "KSI_Integer_free": lambda I, p, n_, a: TOP,
+                      "KSI_%sPdu_free" % ("Aggregation" if kind == "Aggregation" else "Extend"): lambda I, p, n_, a: TOP}
+                inputs = {cp: Ptr("CL"), rp: Ptr("REQ"), hp: Ptr("HOUT"), "*" + hp: 0, "CL->ctx": Ptr("ctx"), "CL->requestCount": 41,
+                          "ctx->netProvider": Ptr("PROV"), "PROV->requestCount": 41,        # the file transport counts on the context's provider
+                          "CL->" + ep_field: Ptr("OWN") if configured else 0, "CL->" + other: Ptr("OTHER"),
+                          "OWN->implCtx": Ptr("OWNIMPL"), "OTHER->implCtx": Ptr("OTHERIMPL"), "OWN->ksi_user": Ptr("own user"), "OWN->ksi_pass": Ptr("own key"),
+                          "OTHER->ksi_user": Ptr("other user"), "OTHER->ksi_pass": Ptr("other key")}
+                for a in addr:
+                    inputs["OWNIMPL->" + a] = 4001 if a == "port" else Ptr("own " + a)
+                    inputs["OTHERIMPL->" + a] = 4002 if a == "port" else Ptr("other " + a)
+                I = Interp(fn, inputs=inputs, call_model=succeed_model(prog, ov), on_unknown="stop", prog=prog)
+                paths = I.run()
+                chk.paths += len(paths)
+                inst = "%s prepare%sRequest[request id %s, %s %s]" % (unit[4:-2], kind, "chosen by the caller" if has_id else "absent", ep_field, "configured" if configured else "not configured")
+                if len(paths) != 1 or paths[0].undetermined or paths[0].ret is TOP:
+                    raise AnalysisBroken("%s: evaluation not determined for %s: %s" % (fn.name, inst, [q.undetermined[:1] for q in paths]))
+                q = paths[0]
+                counts = sorted([I.read(q, "CL->requestCount"), I.read(q, "PROV->requestCount")], key=str)
+                count = 42 if counts == [41, 42] else (41 if counts == [41, 41] else counts)
+                n += 1
+                if not configured:
+                    ok = q.ret != 0 and count == 41 and "enclose" not in seen and "prepare" not in seen
+                    what = "expected a refusal with the counter untouched and nothing enclosed; source: status %s, counter %s, %s" % (hex(q.ret) if isinstance(q.ret, int) else q.ret, count, sorted(seen))
+                else:
+                    pr = seen.get("prepare", [])
+                    want_addr = [4001 if a == "port" else Ptr("own " + a) for a in addr]
+                    okid = (count == 41 and "setid" not in seen) if has_id else (count == 42 and seen.get("idvalue") == 42 and seen.get("setid") == Ptr("NEWID"))
+                    okenc = seen.get("enclose") == (Ptr("REQ"), Ptr("own user"), Ptr("own key"))
+                    okprep = len(pr) > 4 and pr[0] == Ptr("CL") and pr[1] == Ptr("PDU") and (all(w in pr for w in want_addr) or Ptr("OWNIMPL") in pr) and not any(isinstance(x, Ptr) and str(x.what).startswith("other") for x in pr)
+                    pcs = [c for b_, i_, c in fn.calls("prepareRequest")]
+                    ser = show(fn.deep(strip(pcs[0]["a"][2])), fn) if pcs else ""
+                    okser = ("KSI_%sPdu_serialize" % ("Aggregation" if kind == "Aggregation" else "Extend")) in ser
+                    okctx = I.read(q, "HANDLE->reqCtx") == Ptr("REQ")
+                    ok = q.ret == 0 and okid and okenc and okprep and okser and okctx
+                    what = ("expected KSI_OK, %s, enclosed with the %s's credentials, sent to its address with %s, the request remembered; source: status %s, counter %s, id value %s, "
+                            "id set %s, enclose %s, prepareRequest %s, serializer %s, remembered %s" % (
+                                "the caller's id kept" if has_id else "id 42 from the counter (41 -> 42)", ep_field, "its own serializer", q.ret, count, seen.get("idvalue"), seen.get("setid"),
+                                seen.get("enclose"), pr[:7], ser[-40:], I.read(q, "HANDLE->reqCtx")))
+                chk.ob("C07.prepare", inst, ok, what, loc=fn.loc(), fn=fn)
+    if n < 24:
+        raise AnalysisBroken("C07.prepare: only %d rows" % n)
